@@ -1056,7 +1056,11 @@ static int reuse_drive(int start, int nexec)
 	const char *seed = getenv("VERIF_SEED");
 	uint64_t s0 = seed ? strtoull(seed, 0, 10) : 1;
 	static const char *dirty[] = {"\"\\ud83d", "\"\\ud83d\\", "\"\\ud83d\\u", "\"\\ud83d\\ude", "\"\\u00", "\"abc", "[1,2", "{\"a\":", "{\"a\"", "-", "-1.5e", "12", "tru", "nul", "Infin", "-Inf",
-	                              "/* c", "// c", "[[[[", "{\"a\":{\"b\":[", "\"\\", "[1,", "{\"k\":\"v\",", "\xc3", "\"\xe2\x82", "'sq", "1e+", "[nu", "{\"a\\u12"};
+	                              "/* c", "// c", "[[[[", "{\"a\":{\"b\":[", "\"\\", "[1,", "{\"k\":\"v\",", "\xc3", "\"\xe2\x82", "'sq", "1e+", "[nu", "{\"a\\u12",
+	                              /* a complete value inside a container, then a comment that the data ends in */
+	                              "[\"a\" /*", "[1/*", "{\"a\":7 // x", "[[2]/* c", "[true/*", "{\"k\":null//", "[1,\"\"/* *", "{\"a\":[]/*"};
+	/* documents given next WITHOUT a reset (the documented use after a success; after anything else the parser simply goes on) */
+	static const char *nexts[] = {"\"\" ", "5 ", "[1]", "{\"a\":1}", "true ", "[]", "\"s\"", "-2.5e3 ", "null ", "]", "}", ",", "7"};
 	for (int x = start; x < nexec; x++)
 	{
 		vh_srand(s0 * 1000003ull + (uint64_t)x);
@@ -1111,10 +1115,18 @@ static int reuse_drive(int start, int nexec)
 			else if (vh_below(2))
 			{
 				const char *d = dirty[vh_below(sizeof dirty / sizeof *dirty)];
-				int dl = (int)strlen(d);
+				/* (one time in three the terminating NUL is part of the data given) */
+				int dl = (int)strlen(d) + (vh_below(3) == 0);
 				json_object *o = call_exact(tok, (const unsigned char *)d, (size_t)dl);
 				if (o)
 					json_object_put(o);
+				for (int more = (int)vh_below(3); more > 0; more--)
+				{
+					const char *nx = nexts[vh_below(sizeof nexts / sizeof *nexts)];
+					o = call_exact(tok, (const unsigned char *)nx, strlen(nx) + (vh_below(2) == 0));
+					if (o)
+						json_object_put(o);
+				}
 			}
 			else
 			{
